@@ -611,6 +611,9 @@ PPL::CO_Tree::init(const dimension_type n) {
   size_ = 0;
   reserved_size = 0;
   max_depth = 0;
+  // The cached end iterators must be those of the empty tree
+  // if one of the allocations below throws.
+  refresh_cached_iterators();
 
   if (n > 0) {
     const dimension_type max_d = integer_log2(n) + 1;
